@@ -22,7 +22,7 @@ def check(ctx, rep, tier):
                  "store is updated on that path (the guard is evaluated on the four orderings)")
     rep.describe("log-domain", "arguments of math.log in the scorers are quotients of positive "
                  "lengths; no other division")
-    cm = ctx.mod("ctparse.ctparse")
+    cm = ctx.imod("ctparse.ctparse")
     _selection(ctx, rep, cm)
     _forwarding(ctx, rep, cm)
     _strict(ctx, rep, cm)
@@ -31,8 +31,16 @@ def check(ctx, rep, tier):
     rep.assume("not decided: finiteness of the log-odds of an arbitrary caller-supplied model")
 
 
-def _key_is_score(k):
-    """lambda p: p.score / attrgetter('score')"""
+def _key_is_score(k, cm=None):
+    """lambda p: p.score / attrgetter('score') / a module function that returns its argument's score"""
+    if isinstance(k, ast.Name) and cm is not None and k.id in cm.funcs:
+        g = cm.funcs[k.id]
+        body = [b for b in g.body if not (isinstance(b, ast.Expr) and isinstance(b.value, ast.Constant))]
+        if len(body) == 1 and isinstance(body[0], ast.Return) and len(g.args.args) == 1 and not g.decorator_list:
+            b = body[0].value
+            return isinstance(b, ast.Attribute) and b.attr == "score" and isinstance(b.value, ast.Name) \
+                and b.value.id == g.args.args[0].arg
+        return False
     if isinstance(k, ast.Lambda):
         b = k.body
         return isinstance(b, ast.Attribute) and b.attr == "score" and isinstance(b.value, ast.Name) \
@@ -52,46 +60,60 @@ def _selection(ctx, rep, cm):
             lst = n.targets[0].id
     if lst is None:
         raise AnalysisError("anchor vanished: collected candidate list in ctparse()")
-    # returns
-    rets = [r for r in ast.walk(f) if isinstance(r, ast.Return) and r.value is not None]
+    # returns, as provenance terms (sa/checks/strterms.py): the selected element must be a
+    # maximal-score element of the collected list, however the selection is spelled
+    from . import strterms as st_
+    T = st_.Terms(cm)
+    T.run(f.body, {a.arg: ("var", a.arg) for a in f.args.args})
     sel_ok = None
     where = cm.where(f)
-    for r in rets:
-        v = r.value
-        # max(lst, key=score)
-        if isinstance(v, ast.Call) and isinstance(v.func, ast.Name) and v.func.id == "max" and v.args \
-                and norm(v.args[0]) == lst:
-            kw = {k.arg: k.value for k in v.keywords}
-            sel_ok = _key_is_score(kw.get("key"))
-            where = cm.where(r)
-        # sorted(lst, key=score)[-1] / [0] with reverse
-        if isinstance(v, ast.Subscript) and isinstance(v.value, ast.Call) and \
-                isinstance(v.value.func, ast.Name) and v.value.func.id == "sorted":
-            c = v.value
-            kw = {k.arg: k.value for k in c.keywords}
-            rev = isinstance(kw.get("reverse"), ast.Constant) and kw["reverse"].value is True
-            idx = norm(v.slice)
-            sel_ok = c.args and norm(c.args[0]) == lst and _key_is_score(kw.get("key")) and \
-                ((idx == "-1" and not rev) or (idx == "0" and rev))
-            where = cm.where(r)
-        # lst.sort(key=score); return lst[-1]
-        if isinstance(v, ast.Subscript) and norm(v.value) == lst:
-            idx = norm(v.slice)
-            sort_calls = [c for c in calls_in(f, "sort") if isinstance(c.func, ast.Attribute)
-                          and norm(c.func.value) == lst and c.lineno < r.lineno]
-            if sort_calls:
-                c = sort_calls[-1]
-                kw = {k.arg: k.value for k in c.keywords}
-                rev = isinstance(kw.get("reverse"), ast.Constant) and kw["reverse"].value is True
-                sel_ok = _key_is_score(kw.get("key")) and ((idx == "-1" and not rev) or (idx == "0" and rev))
-                # nothing reorders or replaces the list in between
-                for n in ast.walk(f):
-                    if getattr(n, "lineno", 0) > c.lineno and getattr(n, "lineno", 0) < r.lineno and \
-                            isinstance(n, (ast.Assign, ast.AugAssign)) and lst in norm(n):
-                        sel_ok = False
-            else:
-                sel_ok = False
-            where = cm.where(r)
+
+    def is_true(n):
+        return isinstance(n, ast.Constant) and n.value is True
+
+    def base_list(t):
+        """the collection under order-only wrappers (list copy, reversed, sorted)"""
+        while isinstance(t, tuple) and t and t[0] in ("list", "reversed", "sorted"):
+            if t[0] == "list" and isinstance(t[1], tuple) and t[1] and t[1][0] == "call":
+                return t
+            t = t[1]
+        return t
+
+    def whole_stream(t):
+        b = base_list(t)
+        return isinstance(b, tuple) and b and b[0] == "list" and isinstance(b[1], tuple) and \
+            b[1][0] == "call" and b[1][1] == "ctparse_gen"
+    stream_ok = False
+    for term, r in T.returns:
+        if not isinstance(term, tuple) or not term:
+            continue
+        if term[0] in ("new",) or (term[0] == "call" and term[1] == "ctparse_gen") or term == ("const", None):
+            continue
+        ok = None
+        src = None
+        if term[0] in ("max",):
+            ok = _key_is_score(term[2], cm)
+            src = term[1]
+        elif term[0] == "item" and isinstance(term[1], tuple) and term[1] and term[1][0] == "sorted":
+            srt = term[1]
+            rev = is_true(srt[3])
+            ok = _key_is_score(srt[2], cm) and ((term[2] == "-1" and not rev) or (term[2] == "0" and rev))
+            src = srt[1]
+        elif term[0] == "item" and isinstance(term[1], tuple) and term[1] and term[1][0] == "reversed" and \
+                isinstance(term[1][1], tuple) and term[1][1] and term[1][1][0] == "sorted":
+            srt = term[1][1]
+            rev = is_true(srt[3])
+            ok = _key_is_score(srt[2], cm) and ((term[2] == "0" and not rev) or (term[2] == "-1" and rev))
+            src = srt[1]
+        elif term[0] == "item":
+            ok = False
+            src = term[1]
+        if ok is None:
+            continue
+        where = cm.where(r)
+        sel_ok = ok if sel_ok is None else (sel_ok and ok)
+        if src is not None and whole_stream(src):
+            stream_ok = True
     if sel_ok is None:
         rep.violated("selection", cm.rel + "::ctparse::returned candidate", where,
                      "no recognised best-score selection over the collected candidates")
@@ -128,6 +150,7 @@ def _selection(ctx, rep, cm):
                         ok = True
             elif isinstance(src, ast.Call) and e1.callee_name(src.func) == "ctparse_gen":
                 ok = True
+    ok = ok or stream_ok
     rep.add("selection", cm.rel + "::ctparse::collects the whole stream", cm.where(f), ok,
             "" if ok else "the candidates are not list(ctparse_gen(...))")
 
@@ -267,6 +290,34 @@ def _strict(ctx, rep, cm):
                    and any(isinstance(x, ast.Name) and x.id in used for x in ast.walk(c_)) for c_ in ast.walk(node.test))
         if not used or not reads:
             continue
+        # a table that is filled outside the loop of this test is a lookup set prepared beforehand
+        # (e.g. the words to leave out), not a table of what this loop has already let through
+        loop_ = None
+        cur_ = getattr(node, "_parent", None)
+        while cur_ is not None and cur_ is not f:
+            if isinstance(cur_, (ast.For, ast.While)):
+                loop_ = cur_
+                break
+            cur_ = getattr(cur_, "_parent", None)
+
+        def _writes(tname, scope):
+            out_ = []
+            for w_ in ast.walk(scope):
+                if isinstance(w_, ast.Assign) and any(isinstance(t_, ast.Subscript) and isinstance(t_.value, ast.Name)
+                                                      and t_.value.id == tname for t_ in w_.targets):
+                    out_.append(w_)
+                if isinstance(w_, ast.Call) and isinstance(w_.func, ast.Attribute) and isinstance(w_.func.value, ast.Name) \
+                        and w_.func.value.id == tname and w_.func.attr in ("add", "update", "append", "extend", "setdefault"):
+                    out_.append(w_)
+            return out_
+        prefilled = set()
+        for tname in used:
+            inside = {id(w_) for w_ in (_writes(tname, loop_) if loop_ is not None else [])}
+            if any(id(w_) not in inside for w_ in _writes(tname, f)):
+                prefilled.add(tname)
+        used = used - prefilled
+        if not used:
+            continue
         emits = [y for b in node.body for y in ast.walk(b) if isinstance(y, ast.Yield)] + \
             [c_ for b in node.body for c_ in ast.walk(b) if isinstance(c_, ast.Call) and
              isinstance(c_.func, ast.Attribute) and c_.func.attr in ("append", "add")]
@@ -281,15 +332,30 @@ def _strict(ctx, rep, cm):
     # the depth cut keeps the best scored: a sort of the stack lies between the last
     # assignment of scores and every cut
     events = []
-    for st in ast.walk(f):
-        ln = getattr(st, "lineno", None)
-        if ln is None:
-            continue
+    # statements in execution (pre-)order of the inlined body; line numbers of inlined helper
+    # code say nothing about position
+    order = []
+
+    def pre(stmts):
+        for st_node in stmts:
+            order.append(st_node)
+            for fld in ("body", "orelse", "finalbody"):
+                sub = getattr(st_node, fld, None)
+                if isinstance(sub, list) and sub and isinstance(sub[0], ast.stmt):
+                    pre(sub)
+            for h in getattr(st_node, "handlers", []) or []:
+                pre(h.body)
+    pre(f.body)
+    for ln, st in enumerate(order):
         if isinstance(st, ast.Assign) and isinstance(st.value, ast.Subscript) and isinstance(st.value.slice, ast.Slice) \
                 and "max_stack_depth" in norm(st.value.slice) and norm(st.targets[0]) == norm(st.value.value):
             events.append((ln, "cut", st))
         elif isinstance(st, ast.Expr) and isinstance(st.value, ast.Call) and isinstance(st.value.func, ast.Attribute) \
                 and st.value.func.attr == "sort":
+            events.append((ln, "sort", st))
+        elif isinstance(st, ast.Assign) and isinstance(st.value, ast.Call) and isinstance(st.value.func, ast.Name) \
+                and st.value.func.id == "sorted" and not any(k.arg == "key" for k in st.value.keywords):
+            # x = sorted(y): the same order as y.sort() (the elements' own ordering)
             events.append((ln, "sort", st))
         elif isinstance(st, ast.Assign) and isinstance(st.targets[0], ast.Attribute) and st.targets[0].attr == "score":
             events.append((ln, "score", st))
@@ -355,7 +421,7 @@ def _subst(node, mapping):
 def _divisions(ctx, rep):
     n = 0
     for mn in ("ctparse.nb_scorer", "ctparse.scorer"):
-        m = ctx.mod(mn)
+        m = ctx.imod(mn)
         for q, f in m.funcs.items():
             if not q.split(".")[-1] in ("score", "score_final"):
                 continue
